@@ -192,7 +192,7 @@ def normaliser(chk, P, rule):
     kstr = StrV(SFmt("s", k))
     a = W.run_method(I, raw, "optionxform", [kstr])
     b = a
-    site = raw.ci.lookup("optionxform").site()
+    site = raw.ci.site_of("optionxform")
     # the chain removes blanks and tabs everywhere (strip + replace ' ' + replace '\\t')
     txt = repr(a)
     ok = "strip" in txt and "replace" in txt and "' '" in txt and "'\\\\t'" in txt or ("strip" in txt and txt.count("replace") >= 2)
